@@ -297,6 +297,68 @@ def add_isolation_schedule(spec, rng, with_leak=0.6, n=1):
     return picked
 
 
+def add_valve_cut(spec, rng):
+    """Replace one open pipe whose far side has no tank or reservoir by a valve that starts CLOSED and is brought back by a
+    control that changes its *setting* (the simulator's hidden companion then sets status Active); sometimes closed again later.
+    -> {'valve', 'activate', 'close', 'nodes'} or None"""
+    o = spec['options']
+    hyd, dur = o['hydraulic_timestep'], o['duration']
+    links = spec['pipes'] + spec['pumps'] + spec['valves']
+    sources = set(x['name'] for x in spec['reservoirs'] + spec['tanks'])
+    juncs = set(j['name'] for j in spec['junctions'])
+    used = set(cs.get('target') for cs in spec['controls']) | \
+        set(a['target'] for cs in spec['controls'] if cs['kind'] == 'rule' for a in cs['then'] + cs.get('else', []))
+    cands = []
+    for p in spec['pipes']:
+        if p.get('cv') or p.get('status') == 'CLOSED' or p['name'] in used:
+            continue
+        adj = {}
+        for l in links:
+            if l is p:
+                continue
+            adj.setdefault(l['start'], set()).add(l['end'])
+            adj.setdefault(l['end'], set()).add(l['start'])
+        for side, other in ((p['end'], p['start']), (p['start'], p['end'])):
+            seen, stack = {side}, [side]
+            while stack:
+                x = stack.pop()
+                for y in adj.get(x, ()):
+                    if y not in seen:
+                        seen.add(y)
+                        stack.append(y)
+            if seen & sources or other in seen:
+                continue
+            cands.append((p, side, other, sorted(seen)))
+    if not cands:
+        return None
+    p, side, other, nodes = rng.choice(cands)
+    both_j = p['start'] in juncs and p['end'] in juncs
+    vt = rng.choice(['TCV', 'TCV', 'TCV', 'PRV', 'FCV']) if both_j else 'TCV'
+    name = 'V%d' % (len(spec['valves']) + 1)
+    while any(v['name'] == name for v in spec['valves']):
+        name += 'x'
+    setting0, setting1 = {'TCV': (5.0, rng.choice([0.5, 20.0, 300.0])), 'PRV': (150.0, rng.choice([120.0, 200.0])),
+                          'FCV': (0.5, rng.choice([0.2, 1.0]))}[vt]
+    spec['pipes'].remove(p)
+    spec['valves'].append({'name': name, 'start': other, 'end': side, 'diameter': p['diameter'], 'type': vt, 'minor_loss': rng.choice([0.0, 1.0]),
+                           'setting': setting0, 'status': 'CLOSED'})
+    nsteps = max(1, int(dur // hyd))
+    t1 = hyd * rng.randint(1, max(1, nsteps - 1)) + rng.choice([0, 0, hyd // 2])
+    if rng.random() < 0.7:
+        spec['controls'].append({'kind': 'time', 'name': 'cut_set_%s' % name, 'time': t1, 'target': name, 'attr': 'setting', 'value': setting1})
+    else:
+        spec['controls'].append({'kind': 'rule', 'name': 'cut_set_%s' % name, 'priority': 3, 'cond': {'kind': 'simtime', 'op': '>=', 'time': t1},
+                                 'then': [{'target': name, 'attr': 'setting', 'value': setting1}]})
+    t2 = None
+    if rng.random() < 0.4:
+        t2 = t1 + hyd * rng.randint(1, 3)
+        if t2 <= dur:
+            spec['controls'].append({'kind': 'time', 'name': 'cut_close_%s' % name, 'time': t2, 'target': name, 'attr': 'status', 'value': 'CLOSED'})
+    z = {'valve': name, 'type': vt, 'activate': t1, 'close': t2, 'nodes': nodes}
+    spec['valve_cut'] = z
+    return z
+
+
 def add_zone_isolation(spec, rng, prefer_pump=0.8, make_pump=0.5):
     """Time controls that close one open pipe whose far side (junctions only, at least one link inside: a booster pump, a valve,
     pipes) then has no path to any tank or reservoir, and re-open it later.  -> {'pipe', 'close', 'open', 'nodes', 'links'} or None"""
